@@ -281,6 +281,11 @@ def _facts(expr: ast.AST, truth: bool) -> set[str]:
         def const(e: ast.AST) -> int | None:
             return e.value if isinstance(e, ast.Constant) and isinstance(e.value, int) else None
 
+        # x is None / x is not None
+        if isinstance(r, ast.Constant) and r.value is None:
+            kx = chain_key(l) if isinstance(l, (ast.Name, ast.Attribute)) else None
+            if kx and ((isinstance(op, ast.Is) and not truth) or (isinstance(op, ast.IsNot) and truth)):
+                out.add(kx)
         kl, kr = len_of(l), len_of(r)
         if kl is not None:
             c = const(r)
@@ -423,3 +428,92 @@ def check_subscripts(ctx: Ctx) -> None:
                    why or "constant index into a value that may be empty: no non-emptiness test dominates it (IndexError on an empty "
                           "string / list would escape to the caller)", where(fi, sub))
     ctx.require("R-TERM-index", "constant-index subscripts on the formatting path", n_sub, 8)
+
+
+# ------------------------------------------------------------------------------ optional results
+def _optional_source_methods() -> set[str]:
+    """Methods of marko.source.Source whose (non-overload) return annotation admits None."""
+    from ..loader import site_packages
+
+    path = site_packages() / "marko" / "source.py"
+    try:
+        tree = ast.parse(path.read_text())
+    except (OSError, SyntaxError) as e:
+        raise AnalysisError(f"cannot read {path}: {e}") from e
+    out: set[str] = set()
+    for c in tree.body:
+        if isinstance(c, ast.ClassDef) and c.name == "Source":
+            for st in c.body:
+                if isinstance(st, ast.FunctionDef) and st.returns is not None and not any("overload" in norm(d) for d in st.decorator_list):
+                    if "None" in norm(st.returns) and norm(st.returns) != "None":
+                        out.add(st.name)
+    return out
+
+
+def check_optional_results(ctx: Ctx) -> None:
+    """A value that marko may return as None (Source.next_line, Source.expect_re) is tested before it is used."""
+    prog = ctx.prog
+    opt = _optional_source_methods()
+    ctx.note("optional_marko_source_methods", sorted(opt))
+    if not opt:
+        raise AnalysisError("no Optional-returning method found on marko.source.Source (dependency changed)")
+    n_vars = 0
+    for fi in ctx.repo.functions.values():
+        if isinstance(fi.node, ast.Lambda) or fi.name.startswith("test_"):
+            continue
+        src_params = {a.arg for a in fi.node.args.args if a.annotation is not None and norm(a.annotation).endswith("Source")}
+        if not src_params:
+            continue
+        flow = prog.flow(fi)
+        for d in flow.defs:
+            if d.kind != "assign" or not isinstance(d.value, ast.Call) or not isinstance(d.value.func, ast.Attribute):
+                continue
+            f = d.value.func
+            if not (f.attr in opt and isinstance(f.value, ast.Name) and f.value.id in src_params):
+                continue
+            rp = next((k.value for k in d.value.keywords if k.arg == "require_prefix"), None)
+            if f.attr == "next_line" and isinstance(rp, ast.Constant) and rp.value is False:
+                continue  # the overload that cannot return None
+            n_vars += 1
+            var = d.var
+            for node in flow.cfg.nodes:
+                if d not in flow.reaching(node, var):
+                    continue
+                for ex in flow.node_exprs(node):
+                    for sub in walk_no_nested(ex):
+                        if not (isinstance(sub, ast.Name) and sub.id == var and isinstance(sub.ctx, ast.Load)):
+                            continue
+                        pp = parent(sub)
+                        deref = isinstance(pp, (ast.Attribute, ast.Subscript)) and pp.value is sub
+                        as_arg = isinstance(pp, ast.Call) and sub in pp.args and not (
+                            isinstance(pp.func, ast.Name) and pp.func.id in ("isinstance", "bool", "print", "repr", "str"))
+                        if not (deref or as_arg):
+                            continue
+                        if _guarded_in_expression_name(sub, var):
+                            continue
+                        facts: set[str] = set()
+                        for b, lab in must_edges(flow.cfg, d.node, node) or set():
+                            if b.kind == "test":
+                                facts |= _facts(b.ast, lab == "T")
+                        ctx.ob("R-TERM-none", f"{fi.qual} :: `{var}` from {f.value.id}.{f.attr}() used in `{norm(pp)[:50]}`", var in facts,
+                               f"marko's Source.{f.attr} may return None (end of the enclosing container); `{var}` must be tested before it is "
+                               "dereferenced or passed on, or the parser raises on such input", where(fi, node))
+    ctx.require("R-TERM-none", "variables holding an Optional result of marko's Source", n_vars, 1)
+
+
+def _guarded_in_expression_name(sub: ast.AST, key: str) -> bool:
+    cur: ast.AST = sub
+    p = parent(cur)
+    while p is not None and not isinstance(p, ast.stmt):
+        if isinstance(p, ast.BoolOp) and isinstance(p.op, ast.And):
+            idx = next((i for i, v in enumerate(p.values) if _contains(v, cur)), None)
+            if idx is not None and any(key in _facts(e, True) for e in p.values[:idx]):
+                return True
+        if isinstance(p, ast.IfExp):
+            if _contains(p.body, cur) and key in _facts(p.test, True):
+                return True
+            if _contains(p.orelse, cur) and key in _facts(p.test, False):
+                return True
+        cur = p
+        p = parent(p)
+    return False
